@@ -235,8 +235,8 @@ impl Lockstep for QueueModel {
 }
 
 pub fn run(ctx: &'static Ctx) -> i32 {
-    let maxcap = ctx.tier.pick(4usize, 8usize);
-    let nerr = ctx.tier.pick(3usize, 5usize);
+    let maxcap = ctx.tier.pick(5usize, 8usize);
+    let nerr = ctx.tier.pick(4usize, 5usize);
     let veclen = ctx.tier.pick(4usize, 6usize);
     let mut total = ExploreStats::default();
     let mut samples = Samples::new(12);
